@@ -615,6 +615,17 @@ class CallMixin:
             return self.phi(cn, v1, v2, site)
         return run(0, st)
 
+    def _mask_of_index(self, ix):
+        """m if ix is the index array of the True entries of mask m: flatnonzero(m), nonzero(m)[0], where(m)[0]"""
+        if ix.op == "Call" and ix.args and ix.args[0].op == "Ext" and ix.args[0].attr == "numpy.flatnonzero" and \
+                len(ix.args) == 2:
+            return ix.args[1]
+        if ix.op == "Subscript" and ix.args[1].op == "Const" and ix.args[1].attr == 0 and ix.args[0].op == "Call" and \
+                ix.args[0].args and ix.args[0].args[0].op == "Ext" and \
+                ix.args[0].args[0].attr in ("numpy.nonzero", "numpy.where") and len(ix.args[0].args) == 2:
+            return ix.args[0].args[1]
+        return None
+
     def _phi_kwargs(self, n, depth=0):
         if n.op == "Dict":
             return all(d[0] == "k" and isinstance(d[1], str) for d in n.attr)
@@ -792,7 +803,19 @@ class CallMixin:
             r = self.call(f, [elemv] + list(pos[1:]), kw, st, fr, site)
             n = self.mk("BagMap", (recv, self.snapshot(r, st)), None, site)
             return n
-        if recv.op in ("Bag", "BagMap") and name not in ("map", "compute"):
+        if recv.op == "Bag" and name == "starmap" and pos:
+            # bag.starmap(f, **kw): f(*element, **kw) for every element, one result per element, in order
+            f = pos[0]
+            elemv = self.iter_elem(recv.args[0], site)
+            self.effect("dask-map", site, st, fr, node=recv, func=f)
+            n_el = self.seq_len(elemv)
+            if n_el is not None:
+                args_ = [self.elem(elemv, i, None, site) for i in range(n_el)]
+            else:
+                args_ = [self.mk("Starred", (elemv,), None, site)]
+            r = self.call(f, args_ + list(pos[1:]), kw, st, fr, site)
+            return self.mk("BagMap", (recv, self.snapshot(r, st)), None, site)
+        if recv.op in ("Bag", "BagMap") and name not in ("map", "compute", "starmap"):
             self.effect("dask-combinator", site, st, fr, node=recv, name=name)
             return self.mk("BagOther", (recv,), name, site)
         if recv.op == "BagMap" and name == "compute":
@@ -924,6 +947,29 @@ class CallMixin:
                 return self.mk("Enumerate", (P[0],), (start.attr if start is not None else 0) or None, site)
         if q == "builtins.range":
             return self.mk("Range", P, None, site)
+        if q in ("builtins.any", "builtins.all") and len(P) == 1 and not kw:
+            items = self.known_items(P[0]) if P[0].op != "Const" else None
+            if items is not None:
+                ts = [self.truth(x) for x in items]
+                if q.endswith("any"):
+                    if any(t is True for t in ts):
+                        return self.const(True, site)
+                    rest = [x for x, t in zip(items, ts) if t is None]
+                    if not rest:
+                        return self.const(False, site)
+                    return rest[0] if len(rest) == 1 else self.mk("BoolOp", tuple(rest), "Or", site)
+                if any(t is False for t in ts):
+                    return self.const(False, site)
+                rest = [x for x, t in zip(items, ts) if t is None]
+                if not rest:
+                    return self.const(True, site)
+                return rest[0] if len(rest) == 1 else self.mk("BoolOp", tuple(rest), "And", site)
+        if q == "numpy.take" and len(P) == 2 and not kw and self._mask_of_index(P[1]) is not None:
+            # take(x, flatnonzero(m)) is x[m] (both flatten alike)
+            return self.subscript(pos[0], self._mask_of_index(P[1]), st, fr, site)
+        if q == "numpy.put" and len(P) == 3 and not kw and self._mask_of_index(P[1]) is not None:
+            self.write(pos[0], self._mask_of_index(P[1]), self.snapshot(P[2], st), st, fr, site)
+            return self.const(None, site)
         if q in ("builtins.tuple", "builtins.list") and len(P) <= 1:
             if not P:
                 return self.mk("Tuple" if q.endswith("tuple") else "List", (), None, site)
